@@ -17,6 +17,9 @@ type Case struct {
 	Polys [][][]vkit.P2 `json:"polys,omitempty"`
 	Tol   vkit.F        `json:"tol"`
 	Style string        `json:"style,omitempty"`
+	// ScaleExp k: Simplify is called on the case multiplied exactly by 2^k (coordinates and tolerance) and its output is
+	// divided by 2^k again before the oracle looks at it, so the oracle's margins stay at unit scale
+	ScaleExp int `json:"scale_exp,omitempty"`
 }
 
 func randLine(t *rapid.T, maxN int) []vkit.P2 {
@@ -42,7 +45,11 @@ func genLine(t *rapid.T) ([]vkit.P2, string) {
 	case "short":
 		return randLine(t, 2), style
 	}
-	return vkit.GrowLine(t, rapid.IntRange(1, 40).Draw(t, "n"), style), style
+	n := rapid.IntRange(1, 40).Draw(t, "n")
+	if rapid.IntRange(0, 39).Draw(t, "long") == 0 {
+		n = rapid.IntRange(200, 600).Draw(t, "nlong") // long inputs (block-wise or size-dependent code paths)
+	}
+	return vkit.GrowLine(t, n, style), style
 }
 
 func genTol(t *rapid.T) vkit.F {
@@ -57,6 +64,9 @@ func gen(t *rapid.T) Case {
 	var c Case
 	c.Kind = rapid.SampledFrom([]string{"line", "line", "line", "line", "multiline", "polygon", "multipolygon"}).Draw(t, "kind")
 	c.Tol = genTol(t)
+	if rapid.IntRange(0, 2).Draw(t, "scaled") == 0 {
+		c.ScaleExp = rapid.OneOf(rapid.IntRange(-40, 40), rapid.IntRange(-300, 300)).Draw(t, "scale_exp")
+	}
 	switch c.Kind {
 	case "line":
 		l, s := genLine(t)
@@ -161,10 +171,17 @@ func checkCurve(in, out geom.Path, tol float64) (dropped int, msg string) {
 		return 0, "output length out of range"
 	}
 	// does an increasing index map 0=i_0<...<i_{m-1}=n-1 exist with in[i_t]==out[t] and all skipped vertices within tol?
+	// rounding allowance: the code locates the foot of the perpendicular in absolute coordinates, so its distances carry an
+	// error of a few ulps of the largest coordinate (1e-12 at |x| ~ 1e3, 1e-7 at 1e8 - long spirals reach that)
+	maxabs := 0.0
+	for _, q := range in {
+		maxabs = math.Max(maxabs, math.Max(math.Abs(q.X), math.Abs(q.Y)))
+	}
+	slack := 1e-12 + 16*maxabs*0x1p-52
 	within := func(i, j int) bool {
 		for k := i + 1; k < j; k++ {
 			d := vkit.DistPtSeg(vkit.MkP(in[k].X, in[k].Y), vkit.MkP(in[i].X, in[i].Y), vkit.MkP(in[j].X, in[j].Y))
-			if d > tol*(1+1e-9)+1e-12 {
+			if d > tol*(1+1e-9)+slack {
 				return false
 			}
 		}
@@ -236,39 +253,99 @@ func crossing(l geom.Path, eps float64) (int, int, bool) {
 	return 0, 0, false
 }
 
+// scalePath multiplies by a power of two (exact in the normal range); a nil/empty path stays as it is.
+func scalePath(p geom.Path, f float64) geom.Path {
+	if p == nil {
+		return nil
+	}
+	out := make(geom.Path, len(p))
+	for i, q := range p {
+		out[i] = geom.Point{X: q.X * f, Y: q.Y * f}
+	}
+	return out
+}
+
+// cloneGJ deep-copies the coordinate arrays (FromGeom of a value aliases nothing, but be explicit).
+func cloneGJ(g vkit.GJ) vkit.GJ {
+	out := vkit.GJ{T: g.T}
+	for _, p := range g.Polys {
+		var pp [][]vkit.P2
+		for _, r := range p {
+			pp = append(pp, append([]vkit.P2(nil), r...))
+		}
+		out.Polys = append(out.Polys, pp)
+	}
+	return out
+}
+
 func run(c Case) (v vkit.Verdict) {
 	tol := float64(c.Tol)
+	sc, inv := math.Ldexp(1, c.ScaleExp), math.Ldexp(1, -c.ScaleExp)
+	if c.ScaleExp != 0 {
+		// the scaling must be exact (no underflow/overflow of a tiny or huge coordinate), otherwise the case runs unscaled
+		exact := math.IsInf(tol, 0) || (tol*sc)*inv == tol
+		chk := func(r []vkit.P2) {
+			for _, p := range r {
+				for _, f := range p {
+					if x := float64(f); (x*sc)*inv != x || (x != 0 && math.Abs(x*sc) < 1e-290) || math.IsInf(x*sc, 0) {
+						exact = false
+					}
+				}
+			}
+		}
+		for _, l := range c.Lines {
+			chk(l)
+		}
+		for _, pg := range c.Polys {
+			for _, r := range pg {
+				chk(r)
+			}
+		}
+		if exact {
+			v.Class("scaled_by_power_of_two")
+		} else {
+			sc, inv = 1, 1
+			v.Class("scaling_not_exact_run_unscaled")
+		}
+	}
 	v.Class(c.Kind)
 	switch c.Kind {
 	case "line", "multiline":
-		var ml geom.MultiLineString
+		var ml, mlS geom.MultiLineString // unscaled (for the oracle) and scaled (what Simplify sees)
 		for _, l := range c.Lines {
 			ml = append(ml, geom.LineString(toPath(l)))
+			mlS = append(mlS, geom.LineString(scalePath(toPath(l), sc)))
 		}
-		orig := make(geom.MultiLineString, len(ml))
-		for i := range ml {
-			orig[i] = append(geom.LineString(nil), ml[i]...)
+		orig := make(geom.MultiLineString, len(mlS))
+		for i := range mlS {
+			orig[i] = append(geom.LineString(nil), mlS[i]...)
 		}
 		var outs []geom.LineString
 		if c.Kind == "line" {
 			v.Class("style_" + c.Style)
-			outs = []geom.LineString{ml[0].Simplify(tol).(geom.LineString)}
+			outs = []geom.LineString{mlS[0].Simplify(tol * sc).(geom.LineString)}
 		} else {
-			res := ml.Simplify(tol).(geom.MultiLineString)
-			if len(res) != len(ml) {
-				return v.Fail("MultiLineString.Simplify returned %d members for %d", len(res), len(ml))
+			res := mlS.Simplify(tol * sc).(geom.MultiLineString)
+			if len(res) != len(mlS) {
+				return v.Fail("MultiLineString.Simplify returned %d members for %d", len(res), len(mlS))
 			}
-			for i := range ml {
-				single := ml[i].Simplify(tol).(geom.LineString)
+			for i := range mlS {
+				single := mlS[i].Simplify(tol * sc).(geom.LineString)
 				if !reflect.DeepEqual(append(geom.LineString{}, res[i]...), append(geom.LineString{}, single...)) {
 					return v.Fail("member %d of MultiLineString.Simplify differs from simplifying the member alone: %v vs %v", i, res[i], single)
 				}
 			}
 			outs = res
 		}
+		for i := range outs {
+			outs[i] = geom.LineString(scalePath(geom.Path(outs[i]), inv))
+		}
 		for i := range ml {
-			if !reflect.DeepEqual(append(geom.LineString{}, ml[i]...), append(geom.LineString{}, orig[i]...)) {
+			if !reflect.DeepEqual(append(geom.LineString{}, mlS[i]...), append(geom.LineString{}, orig[i]...)) {
 				return v.Fail("input line %d was modified", i)
+			}
+			if len(ml[i]) > 100 {
+				v.Class("long_input")
 			}
 			d, msg := checkCurve(geom.Path(ml[i]), geom.Path(outs[i]), tol)
 			if msg != "" {
@@ -284,30 +361,61 @@ func run(c Case) (v vkit.Verdict) {
 			if len(c.Lines[i]) >= 3 && isSimple(c.Lines[i], 1e-6) {
 				v.Class("input_simple")
 				if a, b, bad := crossing(geom.Path(outs[i]), 1e-9); bad {
-					return v.Fail("input line %d is simple but output segments %d and %d cross (tol %v): output %v", i, a, b, tol, outs[i])
+					return v.Fail("input line %d is simple but output segments %d and %d cross (tol %v, scale 2^%d): output %v", i, a, b, tol, c.ScaleExp, outs[i])
+				}
+				// scale sweep (simplicity and end points only): the same line and tolerance multiplied exactly by 2^k for every
+				// second k in -60..60, so that a threshold that only bites at one coordinate magnitude is met by every line
+				if len(c.Lines[i]) <= 60 && !math.IsInf(tol, 0) {
+					for k := -60 + ((c.ScaleExp%2)+2)%2; k <= 60; k += 2 {
+						f, fi := math.Ldexp(1, k), math.Ldexp(1, -k)
+						ok := (tol*f)*fi == tol
+						for _, q := range ml[i] {
+							if (q.X*f)*fi != q.X || (q.Y*f)*fi != q.Y || (q.X != 0 && math.Abs(q.X*f) < 1e-290) || (q.Y != 0 && math.Abs(q.Y*f) < 1e-290) {
+								ok = false
+							}
+						}
+						if !ok {
+							continue
+						}
+						o := geom.Path(geom.LineString(scalePath(geom.Path(ml[i]), f)).Simplify(tol * f).(geom.LineString))
+						o = scalePath(o, fi)
+						if len(o) < 2 || o[0] != ml[i][0] || o[len(o)-1] != ml[i][len(ml[i])-1] {
+							return v.Fail("line %d multiplied by 2^%d (tol %v): first/last vertex not kept: output %v", i, k, tol, o)
+						}
+						if a, b, bad := crossing(o, 1e-9); bad {
+							return v.Fail("input line %d is simple but, multiplied by 2^%d, output segments %d and %d cross (tol %v at unit scale): output/2^%d = %v", i, k, a, b, tol, k, o)
+						}
+					}
+					v.Class("scale_sweep")
 				}
 			}
 		}
 	case "polygon", "multipolygon":
-		var mp geom.MultiPolygon
+		var mp, mpS geom.MultiPolygon
 		for _, rings := range c.Polys {
-			var pg geom.Polygon
+			var pg, pgS geom.Polygon
 			for _, r := range rings {
 				pg = append(pg, toPath(r))
+				pgS = append(pgS, scalePath(toPath(r), sc))
 			}
 			mp = append(mp, pg)
+			mpS = append(mpS, pgS)
 		}
-		cp := vkit.GJ{T: "MultiPolygon", Polys: c.Polys}
+		cp, _ := vkit.FromGeom(mpS)
+		if len(mpS) == 0 {
+			cp = vkit.GJ{T: "MultiPolygon"}
+		}
+		cp = cloneGJ(cp)
 		var outs geom.MultiPolygon
 		if c.Kind == "polygon" {
-			outs = geom.MultiPolygon{mp[0].Simplify(tol).(geom.Polygon)}
+			outs = geom.MultiPolygon{mpS[0].Simplify(tol * sc).(geom.Polygon)}
 		} else {
-			outs = mp.Simplify(tol).(geom.MultiPolygon)
-			if len(outs) != len(mp) {
-				return v.Fail("MultiPolygon.Simplify returned %d members for %d", len(outs), len(mp))
+			outs = mpS.Simplify(tol * sc).(geom.MultiPolygon)
+			if len(outs) != len(mpS) {
+				return v.Fail("MultiPolygon.Simplify returned %d members for %d", len(outs), len(mpS))
 			}
-			for i := range mp {
-				single := mp[i].Simplify(tol).(geom.Polygon)
+			for i := range mpS {
+				single := mpS[i].Simplify(tol * sc).(geom.Polygon)
 				a, _ := vkit.FromGeom(outs[i])
 				b, _ := vkit.FromGeom(single)
 				if !a.Equal(b, true) {
@@ -315,8 +423,15 @@ func run(c Case) (v vkit.Verdict) {
 				}
 			}
 		}
-		if after, _ := vkit.FromGeom(mp); !after.Equal(cp, true) {
+		if after, _ := vkit.FromGeom(mpS); len(mpS) > 0 && !after.Equal(cp, true) {
 			return v.Fail("input polygon was modified")
+		}
+		for i := range outs {
+			o := make(geom.Polygon, len(outs[i]))
+			for j := range outs[i] {
+				o[j] = scalePath(outs[i][j], inv)
+			}
+			outs[i] = o
 		}
 		for i := range mp {
 			if len(outs[i]) != len(mp[i]) {
@@ -340,12 +455,12 @@ func run(c Case) (v vkit.Verdict) {
 func TestProp(t *testing.T) {
 	vkit.Main(t, vkit.Spec[Case]{
 		ID: "C13",
-		Rule: "rapid: line strings of 0-40 vertices: simple by construction via self-avoiding growth (random walk, outward/inward spiral, zig-zag, hook that " +
+		Rule: "rapid: line strings of 0-40 vertices (1 in 40: 200-600), in 1 case of 3 handed to Simplify multiplied exactly by 2^k (k in +-40 or +-300; coordinates and tolerance; the output is divided by 2^k again, so the oracle and its margins work at unit scale): simple by construction via self-avoiding growth (random walk, outward/inward spiral, zig-zag, hook that " +
 			"curls back over its own chord), arbitrary random/lattice vertex sequences (duplicates, self-crossing), lengths 0,1,2 weighted; tolerance from " +
 			"{0,1e-12,0.5,1,1e9,+Inf} or uniform; multi-line strings, polygons and multi-polygons (star polygons with subdivided edges, random rings). Oracle: " +
 			"termination (watchdog), existence of an increasing index map showing the output is a subsequence keeping first and last vertex with every dropped " +
-			"vertex within tol*(1+1e-9) of its replacing segment (dynamic programme, so duplicate vertices cannot confuse it), input unchanged, members simplified " +
-			"independently, and - when the input is simple by an independent O(n^2) test with margin 1e-6 - no two non-adjacent output segments properly cross (orientation margin 1e-9). " +
+			"vertex within tol*(1+1e-9) + 16 ulps of the largest coordinate of its replacing segment (dynamic programme, so duplicate vertices cannot confuse it), input unchanged, members simplified " +
+			"independently, and - when the input is simple by an independent O(n^2) test with margin 1e-6 - no two non-adjacent output segments properly cross (orientation margin 1e-9); for simple lines of <= 60 vertices that last test and the end points are repeated with the line multiplied exactly by 2^k for every second k in -60..60 (scale sweep). " +
 			"Non-trivial = at least one vertex dropped. Distinct by case hash.",
 		Assumptions:  []string{"termination is decided by a 20 s watchdog on calls that normally take microseconds, confirmed by a fresh-process replay", "rings of one polygon are not claimed independent (the code passes sibling rings as obstacles)"},
 		Gen:          gen,
